@@ -72,6 +72,7 @@ class Exec:
         self._assign_loop_ordinals(info.node)
         self.covers = []          # (name, assumptions) reachability checks
         self.skolems = {}
+        self.ghosts = {name: mk() for name, (mk, _d) in contract.ghost_params.items()}
         self.cur_env = {}
         self.global_facts = []    # instance facts about pure terms (boxing), valid everywhere
         self.notes = []
@@ -133,6 +134,7 @@ class Exec:
         c = Ctx(pre=self.entry, cur=st, args=self.args)
         c.skolems = self.skolems
         c.contract = self.c
+        c.ghost = self.ghosts
         for k, v in kw.items():
             setattr(c, k, v)
         if self.loop_stack:
@@ -260,6 +262,7 @@ class Exec:
                 st.assume(st.alive(self.args[name]))
         self.entry = st.copy()
         ctx = Ctx(pre=self.entry, cur=st, args=self.args)
+        ctx.ghost = self.ghosts
         for label, fn in c._requires:
             st.assume(fn(ctx))
         st.assume(ctx.defs)
@@ -557,6 +560,10 @@ class Exec:
         st.assume(L.FA([i], z3.Select(new, i) ==
                             z3.If(i < n0, z3.Select(old, i), z3.Select(oth, i - n0)),
                             patterns=[z3.Select(new, i)]))
+        p_ = L.fresh('i', L.I)
+        # the same definition read from the appended list (saves the solver an arithmetic rewrite in an index)
+        st.assume(L.FA([p_], z3.Implies(z3.And(0 <= p_, p_ < n1), z3.Select(new, n0 + p_) == z3.Select(oth, p_)),
+                       patterns=[z3.Select(oth, p_)]))
         st.heap['$lat'] = z3.Store(st.H('$lat'), lref, new)
         st.heap['$llen'] = z3.Store(st.H('$llen'), lref, n0 + n1)
 
@@ -992,8 +999,71 @@ class Exec:
                 raise Unsupported('for over value of kind %s (line %d)' % (itv.kind, s.lineno))
         return res
 
+    def for_zip_pairs(self, s, st):
+        """for a, b in zip(X, X[1:]):  consecutive pairs of a list, in order"""
+        it = s.iter
+        if not (isinstance(it, ast.Call) and isinstance(it.func, ast.Name) and it.func.id == 'zip'
+                and len(it.args) == 2 and isinstance(it.args[1], ast.Subscript)
+                and isinstance(it.args[1].slice, ast.Slice)
+                and ast.dump(it.args[1].value) == ast.dump(it.args[0])
+                and isinstance(it.args[1].slice.lower, ast.Constant) and it.args[1].slice.lower.value == 1
+                and it.args[1].slice.upper is None and it.args[1].slice.step is None
+                and isinstance(s.target, ast.Tuple) and len(s.target.elts) == 2):
+            return None
+        res = []
+        for st1, lv in self.ev(it.args[0], st):
+            if isinstance(lv, Raised):
+                res.append((st1, Out('raise', lv.exc, lv.cls)))
+                continue
+            if lv.kind != 'list':
+                raise Unsupported('zip over a %s' % lv.kind)
+            k, spec = self.loop_spec(s)
+            lref = lv.t
+            n = st1.llen(lref)
+            lat = z3.Select(st1.H('$lat'), lref)
+            st1.assume(n >= 0)
+            npairs = z3.If(n >= 1, n - 1, 0)
+            loop_pre = st1.copy()
+            names, fields = self.assigned_in(s.body, st1)
+            kw0 = dict(loop_pre=loop_pre, iterlist=lref, index=z3.IntVal(0))
+            self.check_inv(st1, spec, k, 'inv-establish', kw0, fields=fields, lineno=s.lineno)
+            h = st1.copy()
+            self.havoc_for_loop(h, s.body, spec)
+            idx = L.fresh('idx', L.I)
+            h.assume(0 <= idx, idx <= npairs)
+            kw = dict(loop_pre=loop_pre, iterlist=lref, index=idx)
+            head_ctx = self.assume_inv(h, spec, kw, fields)
+            h.assume(h.llen(lref) == n, z3.Select(h.H('$lat'), lref) == lat)
+            ex = h.copy()
+            ex.assume(idx == npairs)
+            res.append((ex, None))
+            itst = h.copy()
+            itst.assume(idx < npairs)
+            a, b = z3.Select(lat, idx), z3.Select(lat, idx + 1)
+            self.assign(s.target.elts[0], vref(a), itst)
+            self.assign(s.target.elts[1], vref(b), itst)
+            self.loop_stack.append(dict(kind='list', k=k, index=idx, iterlist=lref, elem=a, lat=lat, n=n))
+            outs = self.block(s.body, itst)
+            self.loop_stack.pop()
+            for st3, out in outs:
+                if out is None or out.kind == 'cont':
+                    kw2 = dict(loop_pre=loop_pre, iterlist=lref, index=idx + 1, elem=a)
+                    head_ctx.elem = a
+                    self.check_inv(st3, spec, k, 'inv-preserve', kw2, head_ctx, fields, lineno=s.lineno)
+                    self.oblige(st3, 'iter-stable/loop%d' % k,
+                                z3.And(st3.llen(lref) == n, z3.Select(st3.H('$lat'), lref) == lat),
+                                'inv-preserve', lineno=s.lineno)
+                elif out.kind == 'break':
+                    res.append((st3, None))
+                else:
+                    res.append((st3, out))
+        return res
+
     def for_special(self, s, st):
-        """for-loops over a generator of the package"""
+        """for-loops over a generator of the package, or over zip(X, X[1:])"""
+        zp = self.for_zip_pairs(s, st)
+        if zp is not None:
+            return zp
         it = s.iter
         if not (isinstance(it, ast.Call) and isinstance(it.func, ast.Attribute)):
             return None
